@@ -361,7 +361,9 @@ impl Run {
                 continue;
             }
             for k in 0..2usize {
-                let reps = (if k == 0 { 12usize } else { 4 }) * if self.tier == Tier::Thorough { 4 } else { 1 };
+                // properties whose children are cheap (no model tables, short item lists) get more of them
+                let cheap = self.cold_singles > 28;
+                let reps = (if k == 0 { if cheap { 40usize } else { 12 } } else { 4 }) * if self.tier == Tier::Thorough { 4 } else { 1 };
                 for rep in 0..reps {
                     jobs.push((prof, bin.clone(), k + 16 * rep));
                 }
@@ -435,7 +437,7 @@ impl Run {
         }
         let _ = std::fs::remove_file(&tables_file);
         self.evaluations += ran;
-        self.generators.push(json!({"name": "fresh child processes: a stress pass run from 16 barrier-released threads as the first calls into the crate", "kind": "concurrent cold start (not schedule-controlled)", "cases": n, "children_that_ran_a_pass": ran, "note": "both build profiles x (12 repetitions of the first stress pass + 4 of the second), each repetition starting on different items; children run two at a time; finds first-use races (lazily built state) only with the probability of the interleaving"}));
+        self.generators.push(json!({"name": "fresh child processes: a stress pass run from 16 barrier-released threads as the first calls into the crate", "kind": "concurrent cold start (not schedule-controlled)", "cases": n, "children_that_ran_a_pass": ran, "note": "both build profiles x (12 repetitions of the first stress pass, 40 where a child is cheap, + 4 of the second), each repetition starting on different items; children run two at a time; finds first-use races (lazily built state) only with the probability of the interleaving"}));
         if let Some((_prof, v)) = failure {
             let clause = format!("{}.concurrent_cold_start", self.id);
             let msg = v["message"].as_str().unwrap_or("").to_string();
